@@ -424,9 +424,19 @@ class NameConverter(ast.NodeTransformer):
             return self.generic_visit(node)
 
         cn = node.func.id == self.call_next_sym
+
+        # Keywords that name the positional parameters which follow the
+        # positional arguments, in order, are positional arguments
+        args = list(node.args)
+        keywords = list(node.keywords)
+        while keywords and self.analysis.name_to_positions.get(
+            keywords[0].arg
+        ) == {len(args)}:
+            args.append(keywords.pop(0).value)
+
         if not cn and any(
             isinstance(pos, int)
-            for kw in node.keywords
+            for kw in keywords
             for pos in self.analysis.name_to_positions.get(kw.arg, ())
         ):
             # A positional argument given by keyword is bound by the entry point
@@ -453,7 +463,7 @@ class NameConverter(ast.NodeTransformer):
 
         # type index for positional arguments
         type_parts = [
-            _make_lookup_call(i, arg) for i, arg in enumerate(node.args)
+            _make_lookup_call(i, arg) for i, arg in enumerate(args)
         ]
 
         # type index for keyword arguments
@@ -465,7 +475,7 @@ class NameConverter(ast.NodeTransformer):
                 ],
                 ctx=ast.Load(),
             )
-            for kw in node.keywords
+            for kw in keywords
         ]
 
         if cn:
@@ -488,14 +498,14 @@ class NameConverter(ast.NodeTransformer):
             args=selfarg
             + [
                 ast.Name(id=f"{tmp}{i}", ctx=ast.Load())
-                for i, arg in enumerate(node.args)
+                for i, arg in enumerate(args)
             ],
             keywords=[
                 ast.keyword(
                     arg=kw.arg,
                     value=ast.Name(id=f"{tmp}{kw.arg}", ctx=ast.Load()),
                 )
-                for kw in node.keywords
+                for kw in keywords
             ],
         )
         return ast.copy_location(old_node=node, new_node=new_node)
